@@ -31,7 +31,7 @@ use std::time::Duration;
 
 pub const RULE_C13: &str = "Each run draws one world from the tape (arch x86/amd64/arm/arm64, OS, 1-6 modules with shared leaf names and consistent / absent symbol files incl. CFI programs with aliased registers, 1-8 threads (occasionally 31-40, reaching FuturesUnordered) with frame-pointer chains / CFI-walkable / scan-only stacks, exception, thread names, unloaded modules, memory info, handles, Linux text streams incl. /proc/limits with several entries, MemoryList or Memory64List) and one processor option set, then executes the same world 3-6 times, each execution on a fresh thread with its own hash seed and its own schedule: per-module supplier delay (0-3 gates on the simulated clock) or HTTP chunking and latencies, executor policy, spurious-poll probability, 0-2 companion tasks processing the same dump through the same symbolizer; with the HTTP supplier, executions after the first alternate between a fresh cache and the run's shared, already filled cache (served-from-cache must render the same as downloaded). Execution 0 is the plain schedule (everything ready, FIFO, hash seed 0). All executions must render byte-identical JSON, pretty JSON, text and brief text. NON-TRIVIAL iff the world has at least two threads and at least two executions had different decision traces. DISTINCT = distinct (world digest, multiset of execution decision traces) among non-trivial runs.";
 
-pub const RULE_C03: &str = "Each run draws one world as for C13 but with adversarial shapes enabled (cyclic / descending / extreme frame pointers, sp at 0 / 4 / 2^64-1 / outside the stack, stack at the top of the address space, CFI that makes no progress or never reads memory, hostile STACK WIN sizes, short /proc/limits lines, memory-info ranges ending at 2^64-1, exception parameters up to 15, code bytes at the crashing ip) and hostile symbol files (corrupted, random grammar, unterminated), one option set of {stable_basic, stable_all, unstable_all}, an optional storage fault on the serialised dump (torn tail, lost or stale 512/4096-byte sector, bit rot, header bit flip), symbol supply through the gated supplier or the real HTTP supplier with 404/5xx/connect error/reset/clean cut/stall+timeout/corrupt cache entry, and an optional companion task that is cancelled mid-way. Oracles: no panic; executor steps, provider calls and frames per thread within budgets tied to the input size; peak live heap within 256 MiB + 4096 x input bytes per concurrent processing; Ok state always renders as text, brief text, JSON and pretty JSON, the JSON parses, and rendering into a failing writer returns without panicking. NON-TRIVIAL iff the dump was accepted (processing returned a state) and at least one fault (storage, supply, hostile symbols, adversarial shape) was present. DISTINCT = distinct (world digest, fault description, decision trace) among non-trivial runs.";
+pub const RULE_C03: &str = "Each run draws one world as for C13 but with adversarial shapes enabled (cyclic / descending / extreme frame pointers, sp at 0 / 4 / 2^64-1 / outside the stack, stack at the top of the address space, CFI that makes no progress or never reads memory, hostile STACK WIN sizes, short /proc/limits lines, memory-info ranges ending at 2^64-1, exception parameters up to 15, code bytes at the crashing ip) and hostile symbol files (corrupted, random grammar, unterminated), one option set of {stable_basic, stable_all, unstable_all}, an optional storage fault on the serialised dump (torn tail, lost or stale 512/4096-byte sector, bit rot, header bit flip), symbol supply through the gated supplier or the real HTTP supplier with 404/5xx/connect error/reset/clean cut/stall+timeout/corrupt cache entry, and an optional companion task that is cancelled mid-way. Oracles: no panic; executor steps, provider calls and frames per thread within budgets tied to the input size; peak live heap within 256 MiB + (16 KiB x permitted frames + 4096 x input bytes) per concurrent processing; Ok state always renders as text, brief text, JSON and pretty JSON, the JSON parses, and rendering into a failing writer returns without panicking. NON-TRIVIAL iff the dump was accepted (processing returned a state) and at least one fault (storage, supply, hostile symbols, adversarial shape) was present. DISTINCT = distinct (world digest, fault description, decision trace) among non-trivial runs.";
 
 // ---------------------------------------------------------------------------------------------
 // shared world data (Send: it crosses into sub-execution threads)
@@ -557,6 +557,7 @@ pub fn run_c13() -> Outcome {
         need_debug_ids: use_http,
         hostile_symbols: false,
         all_archs: true,
+        focus_unwind_expr: false,
     });
     let shared = Shared {
         dump: Arc::new(world.dump.clone()),
@@ -826,6 +827,7 @@ pub fn run_c03() -> Outcome {
         need_debug_ids: use_http,
         hostile_symbols: true,
         all_archs: true,
+        focus_unwind_expr: chance("c03.focus_unwind_expr", 1, 4),
     });
     let mut faults: Vec<String> = Vec::new();
     let storage = if chance("c03.storage_fault", 1, 3) {
@@ -858,10 +860,13 @@ pub fn run_c03() -> Outcome {
     let (stack_budget, nthreads, max_region) = measure(&world.dump, &world);
     let companions = ch("c03.companions", 2);
     let sym_total: usize = world.modules.iter().map(|m| m.sym.as_ref().map(|s| s.len()).unwrap_or(0)).sum();
-    // A walked frame carries a full CPU context (0.7-1.3 KB) and is rendered four times; a walk
-    // may legitimately yield one frame per stack byte, so the budget is generous per input
-    // byte — the point is to catch gigabytes demanded by kilobytes.
-    let mem_budget: isize = (256 << 20) + 4096 * (1 + companions as isize) * (world.dump.len() + sym_total) as isize;
+    // A walk may legitimately yield one frame per stack byte (that is the property's own bound);
+    // a frame carries a full CPU context (0.7-1.3 KB) and is rendered four times, once as a
+    // serde_json tree (measured: up to ~10 KB of peak heap per frame). The budget therefore has
+    // a per-permitted-frame term; the per-input-byte term covers symbols and streams. The point
+    // is to catch memory demanded out of proportion to the input.
+    let mem_budget: isize = (256 << 20)
+        + (1 + companions as isize) * (16 * 1024 * stack_budget as isize + 4096 * (world.dump.len() + sym_total) as isize);
     // hard cap: a runaway allocation aborts the worker, the supervisor attributes it to this run
     let tape = Tape::generate(ch("c03.exec_seed", u32::MAX) as u64);
     let sh = shared.clone();
@@ -912,7 +917,7 @@ pub fn run_c03() -> Outcome {
             simkit::ensure!(n as u64 <= bound, "c03.frame_bound", "a thread was walked for more frames than its stack memory has bytes (plus two)");
         }
         // 4. memory budget
-        simkit::ensure!(out.peak_bytes <= mem_budget, "c03.memory_budget", "peak live heap exceeded 256 MiB + 4096 x input bytes per concurrent processing");
+        simkit::ensure!(out.peak_bytes <= mem_budget, "c03.memory_budget", "peak live heap exceeded 256 MiB + (16 KiB x permitted frames + 4096 x input bytes) per concurrent processing");
         Ok(())
     })();
     if accepted {
@@ -987,6 +992,7 @@ pub fn run_c12_pipeline() -> Outcome {
         need_debug_ids: false,
         hostile_symbols: false,
         all_archs: false,
+        focus_unwind_expr: false,
     });
     let shared = Shared {
         dump: Arc::new(world.dump.clone()),
